@@ -187,7 +187,12 @@ def e2e_outcome(kind, split):
             if kind == "h2c":
                 rig.feed(client.data_to_send())
                 rig.run()
-                rest = bytes(rig.transport.written).partition(b"\r\n\r\n")[2]
+            # a further request on the upgraded connection must be served (nothing of the client's preface was lost)
+            client.send_headers(3, [(b":method", b"GET"), (b":path", b"/after"), (b":scheme", b"http"), (b":authority", b"example.com")], end_stream=True)
+            rig.feed(client.data_to_send())
+            rig.run()
+            outcome["scopes"] = [(r["scope"]["type"], r["scope"]["http_version"], r["scope"]["path"]) for r in records]
+            rest = bytes(rig.transport.written).partition(b"\r\n\r\n")[2]
         else:
             rest = wire
         try:
@@ -204,8 +209,10 @@ EXPECT = {
     "plain-post": {"scopes": [("http", "1.1", "/p")], "wire": b"HTTP/1.1 200 ", "bodies": [b"abc"]},
     "h2c-body": {"scopes": [("http", "1.1", "/up")], "wire": b"HTTP/1.1 200 ", "bodies": [b"hi"]},
     "websocket": {"scopes": [("websocket", "1.1", "/ws")], "wire": b"HTTP/1.1 101 "},
-    "h2c": {"scopes": [("http", "2", "/up")], "wire": b"HTTP/1.1 101 ", "h2": [("ResponseReceived", 1), ("StreamEnded", 1)]},
-    "h2c-then-more": {"scopes": [("http", "2", "/up")], "wire": b"HTTP/1.1 101 ", "h2": [("ResponseReceived", 1), ("StreamEnded", 1)]},
+    "h2c": {"scopes": [("http", "2", "/up"), ("http", "2", "/after")], "wire": b"HTTP/1.1 101 ",
+            "h2": [("ResponseReceived", 1), ("ResponseReceived", 3), ("StreamEnded", 1), ("StreamEnded", 3)]},
+    "h2c-then-more": {"scopes": [("http", "2", "/up"), ("http", "2", "/after")], "wire": b"HTTP/1.1 101 ",
+                      "h2": [("ResponseReceived", 1), ("ResponseReceived", 3), ("StreamEnded", 1), ("StreamEnded", 3)]},
     "prior": {"scopes": [], "h2": []},
     "prior+frames": {"scopes": [("http", "2", "/pk")], "h2": [("ResponseReceived", 1), ("StreamEnded", 1)]},
     "alpn": {"scopes": [("http", "2", "/pk")], "h2": [("ResponseReceived", 1), ("StreamEnded", 1)]},
